@@ -37,8 +37,11 @@ CONFIG = {
 }
 TARGETS = ("execution/transport/in_memory.py", "execution/transport/base.py")
 CHANNELS = ["jobs.a.cfg", "jobs.b.cfg", "jobs.a.status", "data.x", "data.y",
-            "retry.jobs.a.cfg", "xdata.x", "jobs.a.cfg.bak"]        # names that contain other names / patterns as a suffix or prefix
-PATTERNS = ["*", "jobs.*", "jobs.*.cfg", "jobs.a.*", "data.?", "jobs.a.cfg", "data.x", "data.[xy]", "jobs.?.cfg", "jobs.[ab].status"]
+            "retry.jobs.a.cfg", "xdata.x", "jobs.a.cfg.bak",        # names that contain other names / patterns as a suffix or prefix
+            # channel names are free-form text: separators, blanks and case are part of the name, not syntax
+            "cell.1,2", "cell.1", "2", "Jobs.A.cfg", " data.x", "data.x|data.y"]
+PATTERNS = ["*", "jobs.*", "jobs.*.cfg", "jobs.a.*", "data.?", "jobs.a.cfg", "data.x", "data.[xy]", "jobs.?.cfg", "jobs.[ab].status",
+            "cell.1,2", "cell.1,*", "cell.*", "data.x|data.y", " data.x", "Jobs.*"]
 
 
 class CallbackBoom(Exception):
